@@ -223,7 +223,21 @@ func (s *Sched) grantable(r *LockReq, now time.Duration) bool {
 	if r.Write {
 		return !st.writer && st.readers == 0
 	}
-	return !st.writer
+	if st.writer {
+		return false
+	}
+	// sync.RWMutex prefers writers: once a goroutine has called Lock, later RLock calls block until that writer is
+	// done - also the RLock of a goroutine that already holds the read lock (recursive read locking deadlocks).
+	// "Later" is the canonical order of the pending list; a writer that is still stalled has not called Lock yet.
+	for _, q := range s.pending {
+		if q == r {
+			break
+		}
+		if q.M == r.M && q.Write && q.NotBefore <= now {
+			return false
+		}
+	}
+	return true
 }
 
 // TagGoroutine gives the calling goroutine a logical name (workload goroutines; dialing goroutines).
